@@ -82,8 +82,7 @@ impl FromStr for Signature {
             ecdsa::Signature::from_scalars(
                 <[u8; 32]>::try_from(&signature[0..32])?,
                 <[u8; 32]>::try_from(&signature[32..64])?,
-            )
-            .unwrap(),
+            )?,
             y_parity.try_into()?,
         ))
     }
